@@ -77,7 +77,19 @@ def _report_value(ctx, rid, gate, func, node, val, oracle, allowed_strip_mask, w
             loc,
             {"witness": repr(w), "side": "over", "class": cls, "sink": norm(node.ast)[:100] if hasattr(node, "ast") else ""},
         )
-    for (line, meth, mask, text) in val.strips:
+    for tag in val.strips:
+        if tag[1] == "ordefault":
+            replaced = get_interp(ctx).langs_by_sig.get(tag[2])
+            if replaced is None:
+                continue
+            for cls, w in G.classify_excess(replaced - oracle, numeric):
+                bad = True
+                r.violation(
+                    rid, "%s:default-substituted:%s" % (gate, cls),
+                    "%s: `%s` replaces the raw value %r by a default before the gate: the malformed token is accepted" % (gate, tag[3], w),
+                    loc, {"witness": repr(w), "side": "over", "class": "pre-gate-default"})
+            continue
+        (line, meth, mask, text) = tag
         extra = mask & ~allowed_strip_mask
         if extra:
             bad = True
